@@ -85,4 +85,59 @@ def gen_tls(repo):
     return out
 
 
-GENERATORS = {'GenTls.v': gen_tls}
+def gen_servercert(repo):
+    """find_servercert: buffer sizes, name literals, where the suffix is written"""
+    import subprocess
+    out = HEADER % 'qsmtpd/starttls.c, include/qsmtpd/qsmtpd.h, <netinet/in.h>'
+    st = strip_comments(read(repo, 'qsmtpd/starttls.c'))
+    p = subprocess.run(['gcc', '-E', '-dM', '-x', 'c', '-'], input=b'#include <netinet/in.h>\n', stdout=subprocess.PIPE, stderr=subprocess.DEVNULL, timeout=60)
+    m = re.search(r'#define\s+INET6_ADDRSTRLEN\s+(\d+)', p.stdout.decode())
+    if not m:
+        raise TranslateError('INET6_ADDRSTRLEN not found in <netinet/in.h>')
+    i6 = int(m.group(1))
+    a, b, cert = one(r'static\s+char\s+certfilename\[\s*(\d+)\s*\+\s*INET6_ADDRSTRLEN\s*\+\s*(\d+)\s*\]\s*=\s*"([^"]*)"\s*;', st, 'certfilename declaration')
+    key = one(r'static\s+char\s+keyfilenamebuf\[\s*sizeof\s*\(\s*certfilename\s*\)\s*\]\s*=\s*"([^"]*)"\s*;', st, 'keyfilenamebuf declaration (same size as certfilename)')
+    if not re.search(r'static\s+const\s+char\s*\*\s*keyfilename\s*=\s*certfilename\s*;', st):
+        raise TranslateError('keyfilename does not start as certfilename')
+    hdr = strip_comments(read(repo, 'include/qsmtpd/qsmtpd.h'))
+    if not re.search(r'char\s+localip\[\s*INET6_ADDRSTRLEN\s*\]', hdr):
+        raise TranslateError('qsmtpd.h: xmitstat.localip is not char[INET6_ADDRSTRLEN]')
+    m = re.search(r'\nfind_servercert\s*\(const char \*localport\)\s*\{(.*?)\n\}', st, flags=re.S)
+    if not m:
+        raise TranslateError('find_servercert not found')
+    body = m.group(1)
+    arg = one(r'const\s+size_t\s+oldlen\s*=\s*strlen\s*\(\s*([^()]*?)\s*\)\s*;', body, 'find_servercert: oldlen')
+    if arg == 'certfilename':
+        const = False
+    elif arg == '"%s"' % cert:
+        const = True
+    else:
+        raise TranslateError('find_servercert: oldlen = strlen(%s) not understood' % arg)
+    dirs = one(r'const\s+size_t\s+diroffs\s*=\s*strlen\s*\(\s*"([^"]*)"\s*\)\s*;', body, 'find_servercert: diroffs')
+    # the statements the model transcribes, in order
+    seq = [r"certfilename\[oldlen\]\s*=\s*'\.'\s*;",
+           r'strncpy\s*\(\s*certfilename\s*\+\s*oldlen\s*\+\s*1\s*,\s*xmitstat\.localip\s*,\s*sizeof\s*\(certfilename\)\s*-\s*oldlen\s*-\s*1\s*\)\s*;',
+           r'iplen\s*=\s*oldlen\s*\+\s*1\s*\+\s*strlen\s*\(\s*xmitstat\.localip\s*\)\s*;',
+           r"certfilename\[iplen\]\s*=\s*':'\s*;",
+           r'strncpy\s*\(\s*certfilename\s*\+\s*iplen\s*\+\s*1\s*,\s*localport\s*,\s*sizeof\s*\(certfilename\)\s*-\s*iplen\s*-\s*1\s*\)\s*;',
+           r"certfilename\[iplen\]\s*=\s*'\\0'\s*;",
+           r"certfilename\[oldlen\]\s*=\s*'\\0'\s*;"]
+    pos = -1
+    for pat in seq:
+        mm = re.search(pat, body[pos + 1:])
+        if not mm:
+            raise TranslateError('find_servercert: statement /%s/ not found in the expected order' % pat)
+        pos = pos + 1 + mm.start()
+    if len(re.findall(r'memcpy\s*\(\s*keyfilenamebuf\s*\+\s*oldlen\s*-\s*1\s*,\s*certfilename\s*\+\s*oldlen\s*,\s*sizeof\s*\(certfilename\)\s*-\s*oldlen\s*\)\s*;', body)) != 2:
+        raise TranslateError('find_servercert: the two memcpy(keyfilenamebuf + oldlen - 1, certfilename + oldlen, sizeof(certfilename) - oldlen) not found')
+    out += 'Definition SC_BUF : nat := %d.                  (* sizeof(certfilename) = sizeof(keyfilenamebuf) *)\n' % (int(a) + i6 + int(b))
+    out += 'Definition SC_IPMAX : nat := %d.                (* longest string in xmitstat.localip *)\n' % (i6 - 1)
+    out += 'Definition SC_CERT : list N := %s.\n' % coq_bytes(c_unescape(cert))
+    out += 'Definition SC_KEY : list N := %s.\n' % coq_bytes(c_unescape(key))
+    out += 'Definition SC_DIR : list N := %s.\n' % coq_bytes(c_unescape(dirs))
+    out += '(* oldlen = strlen("%s") (true) or strlen(certfilename) (false) *)\n' % cert
+    out += 'Definition SC_OLDLEN_CONST : bool := %s.\n' % _b(const)
+    return out
+
+
+GENERATORS = {'GenTls.v': gen_tls, 'GenServerCert.v': gen_servercert}
